@@ -759,6 +759,35 @@ func (c *c07Ctx) probes() []c07Probe {
 	return ps
 }
 
+// checkSeedSwitch: one cache object is asked for the committee of the same (round, step, size)
+// under two different seeds, as a node is after it switched to an equally high fork (same round,
+// another parent seed, no identity update in between). The second answer must be the one a cache
+// that never saw the first seed gives.
+func (c *c07Ctx) checkSeedSwitch(built []*c07Built) {
+	rep := c.rep
+	for _, p := range c.probes()[:3] {
+		seedB := types.BytesToSeed(c.rng.Bytes(32))
+		want := c.vcRef.Clone().GetOnlineValidators(seedB, p.round, p.step, p.limit)
+		first := c.vcRef.Clone().GetOnlineValidators(p.seed, p.round, p.step, p.limit)
+		if want != nil && first != nil && !c07SVEqual(want, first) {
+			rep.Count("seed_switches_with_different_committees", 1)
+		}
+		for i, b := range built {
+			for j, vc := range []*validators.ValidatorsCache{b.vc, b.vc.Clone()} {
+				vc.GetOnlineValidators(p.seed, p.round, p.step, p.limit)
+				got := vc.GetOnlineValidators(seedB, p.round, p.step, p.limit)
+				rep.Eval(1)
+				rep.Count("seed_switch_comparisons", 1)
+				if !c07SVEqual(want, got) {
+					rep.Violation("committee:stale-after-seed-switch", fmt.Sprintf("a cache (#%d, built by %s, clone=%v) asked for (round=%d, step=%d, limit=%d) first under one seed and then under another answers the second question with %s; a cache that never saw the first seed answers %s",
+						i, b.how, j == 1, p.round, p.step, p.limit, c07SVStr(got), c07SVStr(want)), c.replay(map[string]interface{}{"probe": fmt.Sprintf("%x->%x/%d/%d/%d", p.seed, seedB, p.round, p.step, p.limit)}))
+					return
+				}
+			}
+		}
+	}
+}
+
 func (c *c07Ctx) checkDeterminism(built []*c07Built) {
 	rep := c.rep
 	members := c.set.members()
@@ -1442,6 +1471,7 @@ func c07RunCase(rep *verifutil.Report, envs []*c07Env, rng *verifutil.Rng, i int
 
 	// ---- oracle (3)
 	ctx.checkDeterminism(built)
+	ctx.checkSeedSwitch(built)
 
 	// ---- oracle (1)
 	steps := []uint8{types.Final, []uint8{1, 2, 3, uint8(rng.Range(4, 149)), types.ReductionOne, types.ReductionTwo}[rng.Intn(6)]}
